@@ -623,6 +623,30 @@ def rule_g(ctx: Context, R: Reporter):
                 R.check("C07.g", f"{fi.short}: log-likelihood values are stored as the user's likelihood returned them", False, fi, c,
                         msg=f"{fi.short}: `{unparse(c)[:70]}` rewrites log-likelihood values between the user's callable and storage (numpy's nan_to_num also maps -inf to -1.8e308 and NaN to 0.0): "
                             f"a stored logL is no longer what the likelihood returns at the stored x", key=f"logl-rewritten:{norm_text(c)[:50]}")
+        # precision rewriting: a dtype chosen from another array (or a narrower float) rounds the user's values
+        if any(_is_user_like(c) for c in calls_in(fi.node)):
+            for c in calls_in(fi.node):
+                nm = ctx.res.external_name(fi, c) or ""
+                dt = None
+                if nm in ("numpy.asarray", "numpy.array", "numpy.asanyarray", "numpy.fromiter"):
+                    dt = next((k.value for k in c.keywords if k.arg == "dtype"), c.args[1] if len(c.args) > 1 else None)
+                elif isinstance(c.func, ast.Attribute) and c.func.attr == "astype" and c.args and not nm.startswith("numpy."):
+                    dt = c.args[0]
+                if dt is None:
+                    continue
+                at = flow.node_containing(c)
+                tgt = c.args[0] if nm.startswith("numpy.") and c.args else (c.func.value if isinstance(c.func, ast.Attribute) else None)
+                # is the converted value the likelihood result (by tag of the assigned name or of the operand)?
+                st = at.stmt if at is not None else None
+                lhs_tag = name_tag(st.targets[0].id) if isinstance(st, ast.Assign) and isinstance(st.targets[0], ast.Name) else None
+                if lhs_tag != "logl" and not (tgt is not None and tg.tag(tgt, at) == "logl"):
+                    continue
+                dtxt = norm_text(dt)
+                if dtxt in ("float", "np.float64", "numpy.float64", "'float64'", "'f8'", "np.double", "'float'", "np.longdouble", "np.float128"):
+                    continue
+                R.check("C07.g", f"{fi.short}: log-likelihood values keep the user's double precision", False, fi, c,
+                        msg=f"{fi.short}: `{unparse(c)[:70]}` converts the likelihood values to dtype `{unparse(dt)}`: with single-precision / integer coordinates the stored logL is "
+                            f"rounded (differently in the vectorised and the pointwise evaluation modes)", key=f"logl-dtype:{norm_text(c)[:40]}")
         # shape rewriting of per-particle results: squeeze without an axis drops the particle axis of a batch of one
         if any(_is_user_like(c) for c in calls_in(fi.node)):
             for c in calls_in(fi.node):
